@@ -298,11 +298,103 @@ def generate_paula():
     return vlib.write_if_changed(POUTFILE, "\n".join(L))
 
 
+# ---------------------------------------------------------------------------------------------
+# Members of struct mixer_voice (XmpModel/Gen/MixKernelVoiceMembers.lean + harness/c14_voice_members.h):
+# parsed from the preprocessed src/mixer.h so that a new member cannot be forgotten by the reset model.
+# ---------------------------------------------------------------------------------------------
+
+VOUTFILE = os.path.join(vlib.LEAN, "XmpModel", "Gen", "MixKernelVoiceMembers.lean")
+VHEADER = os.path.join(vlib.VERIF, "harness", "c14_voice_members.h")
+
+
+def _struct_body(text, name):
+    m = re.search(r"struct\s+%s\s*\{" % re.escape(name), text)
+    if not m:
+        return None
+    i, depth = m.end(), 1
+    while i < len(text) and depth:
+        depth += {"{": 1, "}": -1}.get(text[i], 0)
+        i += 1
+    return text[m.end():i - 1]
+
+
+def _members(body, prefix=""):
+    """leaf members of a struct body: [(dotted name, kind)] with kind int / double / ptr; nested anonymous structs are flattened"""
+    out, i = [], 0
+    body = re.sub(r"/\*.*?\*/", " ", body, flags=re.S)
+    while i < len(body):
+        m = re.compile(r"\s*struct\s*\{").match(body, i)
+        if m:
+            j, depth = m.end(), 1
+            while j < len(body) and depth:
+                depth += {"{": 1, "}": -1}.get(body[j], 0)
+                j += 1
+            inner = body[m.end():j - 1]
+            m2 = re.compile(r"\s*(\w+)\s*;").match(body, j)
+            if not m2:
+                raise vlib.InfraError("gen_mixlinear(voice): unnamed nested struct in struct mixer_voice")
+            out += _members(inner, prefix + m2.group(1) + ".")
+            i = m2.end()
+            continue
+        m = re.compile(r"\s*([^;{}]+?)\s*;").match(body, i)
+        if not m:
+            break
+        decl = m.group(1).strip()
+        i = m.end()
+        if not decl:
+            continue
+        md = re.fullmatch(r"(.*?)(\**)\s*(\w+)\s*(\[[^\]]*\])?", decl, re.S)
+        if not md or md.group(4):
+            raise vlib.InfraError("gen_mixlinear(voice): member declaration not understood: %r" % decl)
+        typ, stars, name = md.group(1).strip(), md.group(2), md.group(3)
+        if stars or typ.endswith("*"):
+            kind = "ptr"
+        elif re.fullmatch(r"(signed |unsigned )?(int|long|short|char)|int8|int16|int32|uint8|uint16|uint32", typ):
+            kind = "int"
+        elif typ in ("double", "float"):
+            kind = "double"
+        else:
+            raise vlib.InfraError("gen_mixlinear(voice): member type not understood: %r" % decl)
+        out.append((prefix + name, kind))
+    return out
+
+
+def voice_members():
+    probe = '#include "common.h"\n#include "mixer.h"\n'
+    p = subprocess.run(["gcc", "-E", "-P", "-I" + os.path.join(vlib.REPO, "include"), "-I" + os.path.join(vlib.REPO, "src"),
+                        "-x", "c", "-"], input=probe.encode(), stdout=subprocess.PIPE, stderr=subprocess.PIPE)
+    if p.returncode != 0:
+        raise vlib.InfraError("gen_mixlinear(voice): preprocessor failed: " + p.stderr.decode()[-1500:])
+    body = _struct_body(p.stdout.decode(), "mixer_voice")
+    if body is None:
+        raise vlib.InfraError("gen_mixlinear(voice): struct mixer_voice not found")
+    return _members(body)
+
+
+def generate_voice():
+    mem = voice_members()
+    L = ["/-! GENERATED by tools/gen_mixlinear.py from the preprocessed src/mixer.h of the libxmp working tree — do not edit. -/",
+         "namespace Xmp.Gen.MixKernelVoiceMembers", "",
+         "/-- every leaf member of `struct mixer_voice` (nested structs flattened, in declaration order) with its kind -/",
+         "def voiceMembers : List (String × String) := ["]
+    L.append(",\n".join('  ("%s", "%s")' % (n, k) for n, k in mem))
+    L += ["]", "", "end Xmp.Gen.MixKernelVoiceMembers", ""]
+    a = vlib.write_if_changed(VOUTFILE, "\n".join(L))
+    H = ["/* GENERATED by tools/gen_mixlinear.py from the preprocessed src/mixer.h - do not edit.",
+         " * X-macro over every leaf member of struct mixer_voice: I(member) int-like, D(member) floating, P(member) pointer. */",
+         "#define C14_VOICE_MEMBERS(I, D, P) \\"]
+    H.append(" \\\n".join("\t%s(%s)" % ({"int": "I", "double": "D", "ptr": "P"}[k], n) for n, k in mem))
+    H.append("")
+    b = vlib.write_if_changed(VHEADER, "\n".join(H))
+    return a or b
+
+
 def generate_all():
     a = generate()
     b = generate_kernel()
     c = generate_paula()
-    return a or b or c
+    d = generate_voice()
+    return a or b or c or d
 
 
 if __name__ == "__main__":
